@@ -150,3 +150,12 @@ Theorem host_calls_are_where_the_model_logs_them : host_calls_confined = true.
 Proof. exact EventsTie.now_host_calls_confined. Qed.
 Check host_calls_are_where_the_model_logs_them : host_calls_confined = true.
 Print Assumptions host_calls_are_where_the_model_logs_them.
+
+(* T-gen tie of the load theorems: Story::load_state is the async guard followed by StoryState::load_json and touches
+   nothing else of the Story — regenerated from the sources on every run *)
+From Ink.Gen Require Import EngineGen.
+From Ink.Shell Require Import StructureTie.
+Theorem load_state_hands_the_text_to_the_state_only : load_writes_state_only = true.
+Proof. exact StructureTie.now_load_writes_state_only. Qed.
+Check load_state_hands_the_text_to_the_state_only : load_writes_state_only = true.
+Print Assumptions load_state_hands_the_text_to_the_state_only.
